@@ -332,7 +332,10 @@ PROPS = {
                 "(normal, compact, all-parens, compact+all-parens) under recover. Families: all sequences of <=2 tokens of a 52-token alphabet "
                 "and all sequences of 3 tokens of a 31-token alphabet (quick; thorough: 3 of 52, 4 of 31), each rendered with and without "
                 "separating spaces; 33 grammar templates with 2-3 holes filled exhaustively/sampled; random token soups; grammar-generated "
-                "programs; every-byte / sampled truncations and byte mutations (NUL, 0x80-0xFF, delimiters) of examples/*.gr and tests/*.gr. "
+                "programs; every-byte / sampled truncations and byte mutations (NUL, 0x80-0xFF, delimiters) of examples/*.gr and tests/*.gr; "
+                "(formatfam2.go) every ordered pair of `:` with the other binary operators in plain / index / map / call context, and parameter lists of "
+                "func / named func / macro / lambda with 44 kinds of token (strings, numbers, keywords, operators, comments, ILLEGAL and NUL bytes, `..`) in "
+                "every position, with every truncation of the short ones. "
                 "The statement also checks, on the real lexer's streams, the two lexer facts (StreamWF) the no-panic theorem assumes. "
                 "non-trivial = non-empty tree, an error or a continuation; distinct = distinct source text.",
         "trusted_base": COMMON_TB + _FRONT_TB,
@@ -354,9 +357,18 @@ PROPS = {
         "rule": _FRONT_RULE + " parse15 suite: grammar-generated valid programs (1-3 statements, depth <=3) and the shipped examples; for each, "
                 "EVERY token-boundary cut, the cut just before the closing quote of every string and 5 cuts inside every block comment "
                 "(case `<program>@<k>`: line mode on the prefix; hypothesis of part 2 decided by Front.cutKind on the file-mode stream of the "
-                "whole program), plus the whole program and a quarter of the prefixes as plain cases for part 1. "
-                "chunks suite (part 3): 13 hand-written scripts and 150 (quick) / 900 (thorough) scripts from the typed program generator of the eval suite "
-                "(3-9 top-level statements: assignments, function definitions, loops, prints, a final expression; no macros, no top-level return); for each, "
+                "whole program: bracket depth > 0, after a binary operator, after the opening and before the closing quote of a string, after the `/*` "
+                "and before the end of a block comment), plus the whole program and a quarter of the prefixes as plain cases for part 1; "
+                "(parse15fam2.go) 104 hand-written valid programs, one per production and nesting the random generator does not produce (comments inside "
+                "brackets, parameter lists, else-if chains, multi-line brackets, every builtin, dot forms, escapes, comments starting with `/*/`), each with "
+                "EVERY token-boundary cut and a cut at EVERY byte inside every string and block comment. Classes: a failing in-comment cut is the recorded "
+                "finding only when the cut text ends in the comment `/*/`; file-valid/line-continuation only when a brace is still open. "
+                "chunks suite (part 3): 16 hand-written scripts and 150 (quick) / 900 (thorough) scripts from the typed program generator of the eval suite "
+                "(3-9 top-level statements: assignments, function definitions, loops, prints, a final expression; no macros, no top-level return), "
+                "(chunksfam2.go) 23 more hand-written scripts (comments as statements, several statements per line, constants, del, function redefinition "
+                "between uses of a caller, closures with state, catch, self, variadics, the shipped `unless` macro, macros used inside functions and inside "
+                "other templates), 3 scripts of the recorded finding macro-redefined-after-use-in-one-input, and 40 / 400 sessions of the macro suite's "
+                "generator joined into one script (1-3 macros, every definition before its first use); for each, "
                 "ALL 2^(n-1) splits into consecutive chunks when n <= 6 statements, otherwise the trivial split, one statement per chunk and 12/40 random splits; "
                 "a chunk's text is the normal-mode printer output of its parsed statements; (a) the script as one input and (b) the chunks one input at a time "
                 "on one persistent eval.State are evaluated by the harness's replica of repl.EvalOne (evalInput: parse, macros, Eval, recover+Reset) in the 4 "
@@ -376,7 +388,11 @@ PROPS = {
                 "operators in parent/left-child and parent/right-child position, x 7 prefix and 2 postfix operators, index/call/dot/lambda "
                 "combinations (~40 templates per operator); ~330 hand-picked adjacency, comment, literal and lambda cases; every ordered pair of 41 "
                 "statement kinds x 4 separators, at top level and in a block; grammar-generated programs with all literal forms and strings over "
-                "arbitrary bytes/runes; the shipped examples and byte mutations. Tree equality ignores the two layout flags of comments, and "
+                "arbitrary bytes/runes; the shipped examples and byte mutations; (formatfam2.go) `:` against every binary and prefix operator in "
+                "parent/child position (plain, index, map, call, open-ended), parameter lists with 44 kinds of token in every position, 34 kinds of operand "
+                "on either side of the dot index / [ ] / call, a comment (line, block, multi-line) between every pair of 12 statement kinds with every "
+                "combination of separators at top level and in 11 kinds of block (function, if / else / else-if, for, lambda, macro, blocks inside call "
+                "arguments, arrays, map values), and statement pairs x 7 separators inside 19 kinds of nested block (sampled 1/19 in the quick tier). Tree equality ignores the two layout flags of comments, and "
                 "statement-level comments in compact mode. non-trivial = error-free non-empty program.",
         "trusted_base": COMMON_TB + _FRONT_TB,
         "assumptions": ["as C08", "strconv.IsPrint for runes >= 0x80 is a generated table (lean/Grol/Generated/IsPrint.lean)"],
